@@ -30,7 +30,12 @@ const LAZY: &str = "let lz = import! std.lazy.prim\n";
 
 /// A tail recursive family parameterised by the iteration count `N`
 fn tail_family(rng: &mut Rng) -> String {
-    match rng.below(6) {
+    // every syntactic tail context: if branches, let body, match arm, right operand of || and &&
+    match rng.below(10) {
+        6 => "(rec let loop n = (n #Int< 1) || loop (n #Int- 1) in if loop @N@ then 1 else 0)".to_string(),
+        7 => "(rec let loop n = (n #Int< 1) || ((0 #Int< n) && loop (n #Int- 1)) in if loop @N@ then 1 else 0)".to_string(),
+        8 => "(rec let loop n acc = if n #Int< 1 then acc else (let m = n #Int- 1 in let b = acc #Int+ 1 in loop m b) in loop @N@ 0)".to_string(),
+        9 => "rec let loop n t =\n    match t with\n    | Leaf i -> if n #Int< 1 then i else loop (n #Int- 1) (Leaf (i #Int+ 1))\n    | Node l s r -> loop n l\n    | Tip -> loop n (Leaf 0)\nloop @N@ Tip".to_string(),
         0 => "(rec let loop n acc = if n #Int< 1 then acc else loop (n #Int- 1) (acc #Int+ 1) in loop @N@ 0)".to_string(),
         1 => "(rec let even n = if n #Int< 1 then 1 else odd (n #Int- 1)\n let odd n = if n #Int< 1 then 0 else even (n #Int- 1) in even @N@)".to_string(),
         2 => "(rec let loop n acc = if n #Int< 1 then acc else (let k = loop in k (n #Int- 1) (acc #Int+ 2)) in loop @N@ 0)".to_string(),
